@@ -73,8 +73,8 @@ def item(args):
 def run(run):
     sweep.install()
     if run.thorough:
-        light = {(1, 1): None, (2, 1): None, (2, 2): None, (3, 1): None, (3, 2): None, (4, 2): 60}
-        heavy = {(2, 2): None, (3, 1): None, (3, 2): 80}
+        light = {(1, 1): None, (2, 1): None, (2, 2): None, (3, 1): None, (3, 2): 150, (4, 1): 10}
+        heavy = {(2, 2): None, (3, 1): None, (3, 2): 30}
     else:
         light = {(1, 1): None, (2, 1): None, (2, 2): None, (3, 1): None, (3, 2): 20, (4, 1): 2}
         heavy = {(2, 2): 8, (3, 1): 2, (3, 2): 3}
